@@ -50,9 +50,12 @@ type bnd struct {
 	pure   bool
 }
 
+// trErr: a construct outside the subset; caught per function so that every failing function is reported
+type trErr struct{ msg string }
+
 func (t *dtr) bad(n ast.Node, format string, a ...any) {
 	pos := t.fset.Position(n.Pos())
-	fail("outside GoLite-D: %s:%d (function %s): %s", pos.Filename, pos.Line, t.curFunc, fmt.Sprintf(format, a...))
+	panic(trErr{fmt.Sprintf("outside GoLite-D: %s:%d (function %s): %s", pos.Filename, pos.Line, t.curFunc, fmt.Sprintf(format, a...))})
 }
 
 func (t *dtr) tmp() string {
@@ -106,6 +109,14 @@ func (t *dtr) coqType(ty types.Type) string {
 	if t.mode == "ble" {
 		return t.bleType(ty)
 	}
+	if t.mode == "flog" {
+		switch ty.String() {
+		case "*os.File", "*bufio.Writer":
+			return "unit"
+		case "*github.com/koestler/go-victron/vedirectapi.FileLogger":
+			return "(option unit)"
+		}
+	}
 	if t.mode == "enum" {
 		switch typeName(ty) {
 		case "veconst.Enum":
@@ -141,6 +152,8 @@ func (t *dtr) zero(ty types.Type) string {
 		return "(@nil reg)"
 	case "(option devcfg)":
 		return "(@None devcfg)"
+	case "(option unit)":
+		return "(@None unit)"
 	}
 	return ""
 }
@@ -233,7 +246,7 @@ func (t *dtr) errVarTable() map[string]string {
 	if t.mode == "enum" {
 		return map[string]string{"ErrInvalidEnumIdx": "EInvalidEnumIdx"}
 	}
-	if t.mode == "ble" || t.mode == "dbg" {
+	if t.mode == "ble" || t.mode == "dbg" || t.mode == "flog" {
 		return map[string]string{}
 	}
 	return errVars
@@ -484,6 +497,18 @@ func (t *dtr) ex(e ast.Expr) (pre []bnd, term string) {
 		}
 		return pre, "[" + strings.Join(parts, "; ") + "]"
 	case *ast.UnaryExpr:
+		if cl, isLit := x.X.(*ast.CompositeLit); isLit && x.Op == token.AND && t.mode == "flog" {
+			for _, el := range cl.Elts {
+				kv, ok := el.(*ast.KeyValueExpr)
+				if !ok {
+					t.bad(e, "FileLogger literal")
+				}
+				if p, _ := t.ex(kv.Value); len(p) != 0 {
+					t.bad(e, "FileLogger literal with an effect")
+				}
+			}
+			return nil, "(Some tt)"
+		}
 		if x.Op == token.AND && t.mode == "api" && t.isApiObj(x.X) {
 			return nil, "(Some " + t.varName(x.X.(*ast.Ident)) + ")"
 		}
@@ -848,6 +873,11 @@ func (t *dtr) call(x *ast.CallExpr, tv types.TypeAndValue) ([]bnd, string) {
 	}
 	if t.mode == "dbg" {
 		if p, s, ok := t.dbgCall(x, tv); ok {
+			return p, s
+		}
+	}
+	if t.mode == "flog" {
+		if p, s, ok := t.flogCall(x, tv); ok {
 			return p, s
 		}
 	}
@@ -1918,6 +1948,8 @@ func (t *dtr) function(fd *ast.FuncDecl) string {
 		} else if rt == "RegisterValues" {
 			params = append(params, fmt.Sprintf("(%s : regvalues)", t.declare(t.recv)))
 			t.recv = nil
+		} else if t.mode == "flog" {
+			// the receiver is the one open file of the state
 		} else if t.mode == "ble" {
 			params = append(params, "(c : blecfg)")
 		} else if t.mode != "reg" && t.mode != "enum" {
@@ -1932,6 +1964,10 @@ func (t *dtr) function(fd *ast.FuncDecl) string {
 		}
 		for _, n := range p.Names {
 			obj := t.info.Defs[n]
+			if t.mode == "flog" {
+				params = append(params, fmt.Sprintf("(%s : (list byte))", t.declare(obj)))
+				continue
+			}
 			if t.mode == "dbg" && !variadic {
 				params = append(params, fmt.Sprintf("(%s : (list byte))", t.declare(obj)))
 				continue
@@ -2103,6 +2139,12 @@ func translateBleHandler(repo, outPath string) {
 		"GoLite-D -> Gallina translation of the advertisement handler (tie T-gen).")
 }
 
+func translateFlog(repo, outPath string) {
+	translatePkg(repo, outPath, "flog", "vedirectapi", []string{"NewFileLogger", "Println", "Close"},
+		"From GV Require Import Vedirect.DrvSem Api.FlogSem.\nImport ListNotations.\nLocal Open Scope Z_scope.\n\n",
+		"GoLite-D -> Gallina translation of the file logger (tie T-gen).")
+}
+
 func translateDbg(repo, outPath string) {
 	translatePkg(repo, outPath, "dbg", "vedirect", []string{"debugPrintf"},
 		"From GV Require Import Vedirect.DrvSem Vedirect.DbgSem.\nImport ListNotations.\nLocal Open Scope Z_scope.\n\n",
@@ -2163,9 +2205,12 @@ func translatePkg(repo, outPath, mode, pkgName string, entries []string, header,
 					entries = append(entries, key)
 					continue
 				}
+				if mode == "flog" && (fd.Recv == nil || strings.TrimPrefix(types.ExprString(fd.Recv.List[0].Type), "*") != "FileLogger") && fd.Name.Name != "NewFileLogger" {
+					continue
+				}
 				if fd.Recv != nil && len(fd.Recv.List) == 1 {
 					rt := strings.TrimPrefix(types.ExprString(fd.Recv.List[0].Type), "*")
-					if rt != "Vedirect" && rt != "RegisterApi" && rt != "RegisterList" && rt != "BleStruct" && rt != "FieldListValue" && rt != "RegisterValues" {
+					if rt != "Vedirect" && rt != "RegisterApi" && rt != "RegisterList" && rt != "BleStruct" && rt != "FieldListValue" && rt != "RegisterValues" && !(mode == "flog" && rt == "FileLogger") {
 						continue // methods of other types are not translated
 					}
 				}
@@ -2187,6 +2232,7 @@ func translatePkg(repo, outPath, mode, pkgName string, entries []string, header,
 	// translate everything reachable from the entry points, callees first
 	text := map[string]string{}
 	var order []string
+	var errs []string
 	var visit func(name string, from string)
 	state := map[string]int{}
 	visit = func(name, from string) {
@@ -2203,7 +2249,20 @@ func translatePkg(repo, outPath, mode, pkgName string, entries []string, header,
 		state[name] = 1
 		t.calls = map[string]bool{}
 		t.curKey = name
-		s := t.function(fd)
+		s := ""
+		func() {
+			defer func() {
+				if r := recover(); r != nil {
+					e, isTr := r.(trErr)
+					if !isTr {
+						panic(r)
+					}
+					errs = append(errs, e.msg)
+					s = ""
+				}
+			}()
+			s = t.function(fd)
+		}()
 		var callees []string
 		for c := range t.calls {
 			callees = append(callees, c)
@@ -2213,8 +2272,10 @@ func translatePkg(repo, outPath, mode, pkgName string, entries []string, header,
 			visit(c, name)
 		}
 		state[name] = 2
-		text[name] = s
-		order = append(order, name)
+		if s != "" {
+			text[name] = s
+			order = append(order, name)
+		}
 	}
 	for _, e := range entries {
 		visit(e, "entry")
@@ -2238,5 +2299,12 @@ func translatePkg(repo, outPath, mode, pkgName string, entries []string, header,
 		fmt.Fprintf(&sb, "Definition all_new_fieldlist : list (string * (Z -> D (Z * gerr))) :=\n  [%s].\n\n", strings.Join(fl, ";\n   "))
 	}
 	fmt.Fprintf(&sb, "(* functions: %s *)\n", strings.Join(order, " "))
+	if len(errs) > 0 {
+		// the functions that could be translated go to <out>.partial (for the comparison with the reference
+		// translation); the previous <out> stays as it is
+		writeIfChanged(outPath+".partial", sb.String())
+		fail("%s", strings.Join(errs, "\ngvgen: "))
+	}
+	os.Remove(outPath + ".partial")
 	writeIfChanged(outPath, sb.String())
 }
